@@ -751,6 +751,132 @@ def canonical_locals(ix, f, fn):
     return fn
 
 
+def canonical_callees(ix, f, fn):
+    """a function the rules know by name that was renamed (the old name kept as an alias) is spelled with the known name where it is used"""
+    ren = getattr(ix, "renamed", {}).get(f.mod)
+    if not ren:
+        return fn
+    local = _stored_names(fn)
+    use = {a: b for a, b in ren.items() if a not in local and b not in local}
+    if not use:
+        return fn
+    return _Rename(use, {}).visit(fn)
+
+
+def specialise_defaults(ix, f, fn):
+    """a parameter with a default that every call site inside the package leaves at that default (omits it, or passes the very same constant)
+    is read as that default: `parse(data, *, error_listener=BlackbirdErrorListener)` ... `error_listener()` -> `BlackbirdErrorListener()`.
+    What the package itself does is then decided as before; other values are a caller's own affair."""
+    a = fn.args
+    pos_params = a.posonlyargs + a.args
+    cand = {}
+    for p_, d in zip(pos_params[len(pos_params) - len(a.defaults):], a.defaults):
+        cand[p_.arg] = d
+    for p_, d in zip(a.kwonlyargs, a.kw_defaults):
+        if d is not None:
+            cand[p_.arg] = d
+    local = _stored_names(ast.Module(body=fn.body, type_ignores=[]))
+    cand = {k: v for k, v in cand.items() if k not in local and k not in ("self", "cls", "cwd")
+            and (isinstance(v, ast.Constant) and isinstance(v.value, (str, bool)) and v.value is not None or isinstance(v, (ast.Name, ast.Attribute)))}
+    if not cand:
+        return fn
+    names = [x.arg for x in pos_params]
+    # every call site in the package
+    for q2, g in ix.funcs.items():
+        if q2 != g.qual:
+            continue
+        for c in ast.walk(getattr(g, "orig", None) or g.node):
+            if not isinstance(c, ast.Call):
+                continue
+            target = None
+            if isinstance(c.func, ast.Name):
+                target = ix.funcs.get(ix.resolve_name(g.mod, c.func.id))
+            elif isinstance(c.func, ast.Attribute) and f.cls and c.func.attr == f.name:
+                target = f
+            if target is None or target.qual != f.qual:
+                continue
+            if any(isinstance(x, ast.Starred) for x in c.args) or any(k.arg is None for k in c.keywords):
+                return fn
+            offset = 1 if (f.cls and names[:1] in (["self"], ["cls"]) and isinstance(c.func, ast.Attribute)) else 0
+            for i_, arg in enumerate(c.args):
+                if i_ + offset < len(names) and names[i_ + offset] in cand and " ".join(u(arg).split()) != " ".join(u(cand[names[i_ + offset]]).split()):
+                    del cand[names[i_ + offset]]
+            for k in c.keywords:
+                if k.arg in cand and " ".join(u(k.value).split()) != " ".join(u(cand[k.arg]).split()):
+                    del cand[k.arg]
+    if not cand:
+        return fn
+    body = [_Rename({}, cand).visit(b_) for b_ in fn.body]
+    fn.body = body
+    ast.fix_missing_locations(fn)
+    return fn
+
+
+def drop_default_arguments(ix, f, fn):
+    """`g(x, sep=", ")` where ", " is the default of g's parameter `sep` is `g(x)`: a keyword argument that repeats the callee's (constant)
+    default is dropped at the call site"""
+    class D(ast.NodeTransformer):
+        def visit_Call(self, node):
+            self.generic_visit(node)
+            if not node.keywords or not isinstance(node.func, ast.Name):
+                return node
+            g = ix.funcs.get(ix.resolve_name(f.mod, node.func.id))
+            if g is None:
+                return node
+            ga = (getattr(g, "orig", None) or g.node).args
+            defaults = {}
+            pos_params = ga.posonlyargs + ga.args
+            for p_, d in zip(pos_params[len(pos_params) - len(ga.defaults):], ga.defaults):
+                defaults[p_.arg] = d
+            for p_, d in zip(ga.kwonlyargs, ga.kw_defaults):
+                if d is not None:
+                    defaults[p_.arg] = d
+            node.keywords = [k for k in node.keywords if not (k.arg in defaults and isinstance(defaults[k.arg], ast.Constant) and isinstance(k.value, ast.Constant)
+                                                              and type(k.value.value) is type(defaults[k.arg].value) and k.value.value == defaults[k.arg].value)]
+            return node
+    return D().visit(fn)
+
+
+def resolve_conditional_locals(fn, accessors=frozenset()):
+    """`x = A if c else B` followed, in the same block, by `if c: S1 else: S2` (the same pure test - a parse-tree accessor chain - and no
+    rebinding of x or of what c reads in between): x is A inside S1 and B inside S2"""
+    def pure_test(e):
+        while True:
+            if isinstance(e, ast.Call) and not e.args and not e.keywords and isinstance(e.func, ast.Attribute):
+                e = e.func.value
+            elif isinstance(e, ast.Attribute):
+                e = e.value
+            else:
+                break
+        return isinstance(e, ast.Name)
+
+    def fblock(stmts):
+        for i, s_ in enumerate(stmts):
+            if not (isinstance(s_, ast.Assign) and len(s_.targets) == 1 and isinstance(s_.targets[0], ast.Name) and isinstance(s_.value, ast.IfExp) and pure_test(s_.value.test)):
+                continue
+            x, c = s_.targets[0].id, " ".join(u(s_.value.test).split())
+            for s2 in stmts[i + 1:]:
+                if isinstance(s2, ast.If) and " ".join(u(s2.test).split()) == c:
+                    s2.body = [_Rename({}, {x: s_.value.body}).visit(b_) for b_ in s2.body] if not (set().union(*[_stored_names(b_) for b_ in s2.body]) & {x}) else s2.body
+                    s2.orelse = [_Rename({}, {x: s_.value.orelse}).visit(b_) for b_ in s2.orelse] if not (set().union(*[_stored_names(b_) for b_ in s2.orelse] or [set()]) & {x}) else s2.orelse
+                    break
+                if x in _stored_names(s2):
+                    break
+        return stmts
+    fn = _map_blocks(fn, fblock)
+    # a constant the test of an elif reduces to: `elif None:` / `if None:` never runs
+    class N(ast.NodeTransformer):
+        def visit_If(self, node):
+            self.generic_visit(node)
+            if isinstance(node.test, ast.Constant) and node.test.value is None:
+                node.test = ast.copy_location(ast.Constant(value=False), node.test)
+            return node
+    fn = N().visit(fn)
+    fn = drop_dead_branches(fn)
+    ast.fix_missing_locations(fn)
+    return fn
+
+
 def guard_form(fn):
     """`if c: A else: B` with A leaving the block on every path (return / raise / continue / break) -> `if c: A` followed by B: the
     guard-clause spelling is the canonical one (an inlined helper or an elif ladder of returns reads like a sequence of guards)."""
@@ -1031,7 +1157,51 @@ def desugar_walrus(fn):
 def dispatch_comprehensions(fn):
     """`X = [A if c else B for t in IT]` (a type dispatch written inside a comprehension)  ->  `X = []; for t in IT: if c: X.append(A) else:
     X.append(B)`; `map(f, xs)` with one iterable -> `(f(m) for m in xs)`.  Both keep elements and order."""
+    def pure_elt(e, var):
+        """an element expression that only converts / reads the loop variable (safe to evaluate more than once)"""
+        if isinstance(e, ast.Name):
+            return e.id == var
+        if isinstance(e, ast.Call) and isinstance(e.func, ast.Name) and e.func.id in ("str", "int", "float", "repr", "tuple", "len", "bool") and len(e.args) == 1 and not e.keywords:
+            return pure_elt(e.args[0], var)
+        if isinstance(e, ast.Attribute):
+            return pure_elt(e.value, var)
+        return False
+
+    def flatten(comp):
+        """{K(n): V(n) for n in (E(m) for m in xs)} -> {K(E(m)): V(E(m)) for m in xs}  (one generator each, no filters, E a pure conversion)"""
+        if len(comp.generators) != 1:
+            return comp
+        g = comp.generators[0]
+        inner = g.iter
+        if not (isinstance(inner, (ast.GeneratorExp, ast.ListComp)) and len(inner.generators) == 1 and not inner.generators[0].ifs and not g.ifs and isinstance(g.target, ast.Name)
+                and isinstance(inner.generators[0].target, ast.Name) and pure_elt(inner.elt, inner.generators[0].target.id)):
+            return comp
+        ig = inner.generators[0]
+        outer_parts = [comp.key, comp.value] if isinstance(comp, ast.DictComp) else [comp.elt]
+        taken = {x.id for e_ in outer_parts for x in ast.walk(e_) if isinstance(x, ast.Name)} - {g.target.id}
+        if ig.target.id in taken:
+            return comp             # the inner loop variable would capture a name of the outer element
+        sub = _Rename({}, {g.target.id: inner.elt})
+        if isinstance(comp, ast.DictComp):
+            comp.key, comp.value = sub.visit(comp.key), sub.visit(comp.value)
+        else:
+            comp.elt = sub.visit(comp.elt)
+        comp.generators = [ast.comprehension(target=ig.target, iter=ig.iter, ifs=[], is_async=0)]
+        return comp
+
     class M(ast.NodeTransformer):
+        def visit_DictComp(self, node):
+            self.generic_visit(node)
+            return flatten(node)
+
+        def visit_ListComp(self, node):
+            self.generic_visit(node)
+            return flatten(node)
+
+        def visit_SetComp(self, node):
+            self.generic_visit(node)
+            return flatten(node)
+
         def visit_Call(self, node):
             self.generic_visit(node)
             if isinstance(node.func, ast.Name) and node.func.id == "map" and len(node.args) == 2 and not node.keywords and not isinstance(node.args[1], ast.Starred) \
@@ -1937,6 +2107,16 @@ class _ReplaceNode(ast.NodeTransformer):
         return self.generic_visit(node)
 
 
+_COMMON_METHODS = frozenset(m for t in (list, dict, set, str, tuple, frozenset, bytes, int, float, complex) for m in dir(t)) | frozenset(
+    "flatten ravel reshape astype tolist copy item any all sum prod subs xreplace evalf simplify expand atoms has match walk visit start".split())
+
+
+def _plain_chain(e):
+    while isinstance(e, ast.Attribute):
+        e = e.value
+    return isinstance(e, ast.Name)
+
+
 def local_instance_class(ix, f, name):
     """qual of the package class a local of f is an instance of: the local is bound exactly once, to a constructor call of that class,
     or is a parameter that every call site in the package passes such a local for (helpers the object is handed down to)"""
@@ -1967,6 +2147,21 @@ def _resolve_helper(ix, f, call, keep, stack=()):
             g = ix.funcs.get("%s.%s" % (cq, call.func.attr))
             if g is not None and any(_decorator_name(d) in ("staticmethod", "classmethod") for d in (getattr(g, "orig", None) or g.node).decorator_list):
                 g = None
+        else:
+            # a method name that exactly one class of the package defines (and that is neither a parse-tree accessor nor a method of the
+            # built-in containers and strings): the receiver can only be an object of that class
+            name = call.func.attr
+            if name not in _COMMON_METHODS and name not in ix.accessor_names() and not name.startswith("__"):
+                cands = [h for q_, h in ix.funcs.items() if q_ == h.qual and h.cls and h.name == name and h.qual not in keep]
+                if len(cands) == 1 and not (getattr(cands[0], "orig", None) or cands[0].node).decorator_list:
+                    g = cands[0]
+    elif isinstance(call.func, ast.Attribute) and isinstance(call.func.value, ast.Attribute) and _plain_chain(call.func.value):
+        # self._program.set_variable(...): a method that exactly one class of the package defines, called on an attribute chain
+        name = call.func.attr
+        if name not in _COMMON_METHODS and name not in ix.accessor_names() and not name.startswith("__"):
+            cands = [h for q_, h in ix.funcs.items() if q_ == h.qual and h.cls and h.name == name and h.qual not in keep]
+            if len(cands) == 1 and not (getattr(cands[0], "orig", None) or cands[0].node).decorator_list:
+                g = cands[0]
     if g is None or g.qual == f.qual or g.qual in stack or g.qual in keep or g.name.startswith("__"):
         return None
     decos = [u(d) for d in g.node.decorator_list]
@@ -2200,8 +2395,9 @@ def inline_function(ix, f, depth=2, _stack=(), keep=frozenset(), fn=None):
             return None
         params, mapping = b
         receiver = None
-        if isinstance(call.func, ast.Attribute) and isinstance(call.func.value, ast.Name) and call.func.value.id not in ("self", "cls") and getattr(g, "cls", None) \
-                and not (f.cls and call.func.value.id == f.cls.split(".")[-1]):
+        if isinstance(call.func, ast.Attribute) and getattr(g, "cls", None) and (
+                (isinstance(call.func.value, ast.Name) and call.func.value.id not in ("self", "cls") and not (f.cls and call.func.value.id == f.cls.split(".")[-1]))
+                or (isinstance(call.func.value, ast.Attribute) and _plain_chain(call.func.value))):
             first = [a.arg for a in gnode.args.posonlyargs + gnode.args.args][:1]
             if first and first[0] in ("self", "cls"):
                 receiver = (first[0], call.func.value)
@@ -2216,8 +2412,20 @@ def inline_function(ix, f, depth=2, _stack=(), keep=frozenset(), fn=None):
         helper_stores -= shared
         counter[0] += 1
         names, exprs, pre = {}, {}, []
+        uses_of = {}
+        for s_ in body:
+            for x in ast.walk(s_):
+                if isinstance(x, ast.Name) and isinstance(x.ctx, ast.Load):
+                    uses_of[x.id] = uses_of.get(x.id, 0) + 1
+
+        def effectful(e):
+            """an argument whose evaluation may do something (a call that is not a plain accessor chain): it is evaluated once, where the call is"""
+            for x in ast.walk(e):
+                if isinstance(x, ast.Call) and not (isinstance(x.func, ast.Attribute) and not x.args and not x.keywords):
+                    return True
+            return False
         for p_ in params:
-            if p_ in helper_stores:
+            if p_ in helper_stores or (effectful(mapping[p_]) and uses_of.get(p_, 0) != 1):
                 new = p_ if (p_ not in caller_names or origin.get(p_) == g.qual) else "_h%d_%s" % (counter[0], p_)
                 if p_ not in caller_names:
                     origin[p_] = g.qual
@@ -2642,6 +2850,9 @@ def normal_form(ix, f, keep):
     consts, single = ix.const_env(f.mod)
     fn = copy.deepcopy(f.node)
     passes = [
+        lambda t: canonical_callees(ix, f, t),
+        lambda t: specialise_defaults(ix, f, t),
+        lambda t: drop_default_arguments(ix, f, t),
         lambda t: expand_with(ix, f, t),
         lambda t: desugar_match(t),
         lambda t: desugar_walrus(t),
@@ -2667,6 +2878,7 @@ def normal_form(ix, f, keep):
         lambda t: inline_deferred_lists(t),
         lambda t: fold_library_pairs(t),
         lambda t: drop_identity_stores(t),
+        lambda t: resolve_conditional_locals(t, ix.accessor_names()),
         lambda t: guard_form(t),
         lambda t: canonical_locals(ix, f, t),
     ]
